@@ -26,7 +26,7 @@ theorem obj_frame (ch : Choices) (wsE : Nat → List Ev) (hws : WsOnly wsE) (lvl
     (hstart : startElement {} st name (OplFmt.OplSpec.pick ch.attrOrder as) =
       .ok { markDone (push st k) with cur := some { obj := ob0 } })
     (hchildren : ∀ (st1 : RSt) (tl' : List Ev), st1.stack = k :: p :: rest → st1.cur = some { obj := ob0 } →
-      st1.commentText = st.commentText →
+      (st1.commentText = st.commentText ∧ st1.commentPending = st.commentPending) →
       ∃ st2, runEvents {} (children.flatten ++ tl') st1 = runEvents {} tl' st2 ∧ st2 = { st1 with cur := some cF }) :
     runEvents {} (elEvs ch wsE lvl name as children ++ tl) st =
       runEvents {} tl { markDone st with out := assemble cF :: st.out } := by
@@ -34,7 +34,7 @@ theorem obj_frame (ch : Choices) (wsE : Nat → List Ev) (hws : WsOnly wsE) (lvl
   have hs1 : st1.stack = k :: p :: rest := by
     simp only [st1]
     cases hh : st.headerOut <;> simp [markDone, push, hh, hs]
-  have hct1 : st1.commentText = st.commentText := by
+  have hct1 : st1.commentText = st.commentText ∧ st1.commentPending = st.commentPending := by
     simp only [st1]
     cases hh : st.headerOut <;> simp [markDone, push, hh]
   rw [run_open ch wsE hws lvl name as children tl st st1 hnt hstart]
@@ -92,6 +92,14 @@ theorem members_after_tags (obj : Object) (pre : List Sub) (lo : Bool) (ms : Lis
 
 /-! ### the start tags -/
 
+/-- the user name the renderer emits is short enough for `set_user` -/
+theorem specUser_len (ch : Choices) (m : Meta) (hm : XMetaOK m) :
+    (if (!(ch.omitDefaults && m.user.isEmpty)) then m.user else []).length ≤ 1024 := by
+  obtain ⟨_, _, _, hl⟩ := xstrOK_spec hm.user
+  split
+  · exact hl
+  · simp
+
 theorem spec_start_way (ch : Choices) (m : Meta) (hm : XMetaOK m) (st : RSt) (rest : List Ctx)
     (hs : st.stack = parentCtx (specOpts ch) m :: rest) :
     startElement {} st "way" (OplFmt.OplSpec.pick ch.attrOrder (metaAttrs ch m)) =
@@ -99,7 +107,7 @@ theorem spec_start_way (ch : Choices) (m : Meta) (hm : XMetaOK m) (st : RSt) (re
   rw [(start_object st _ (parentCtx_data _ m) rest hs _).2.1]
   have hinit := spec_init ch (fun x => Object.way x []) (isMk_way []) m hm false ⟨0, 0⟩ ⟨by decide, by decide, by decide, by decide⟩
   simp only [Bool.false_eq_true, if_false, List.append_nil] at hinit
-  rw [initObject_of _ _ _ _ _ _ hinit]
+  rw [initObject_of _ _ _ _ _ _ hinit (specUser_len ch m hm)]
   simp only [mapMeta, bindE_ok, spec_meta_result ch m hm]
 
 theorem spec_start_relation (ch : Choices) (m : Meta) (hm : XMetaOK m) (st : RSt) (rest : List Ctx)
@@ -109,7 +117,7 @@ theorem spec_start_relation (ch : Choices) (m : Meta) (hm : XMetaOK m) (st : RSt
   rw [(start_object st _ (parentCtx_data _ m) rest hs _).2.2]
   have hinit := spec_init ch (fun x => Object.relation x []) (isMk_relation []) m hm false ⟨0, 0⟩ ⟨by decide, by decide, by decide, by decide⟩
   simp only [Bool.false_eq_true, if_false, List.append_nil] at hinit
-  rw [initObject_of _ _ _ _ _ _ hinit]
+  rw [initObject_of _ _ _ _ _ _ hinit (specUser_len ch m hm)]
   simp only [mapMeta, bindE_ok, spec_meta_result ch m hm]
 
 theorem spec_start_node (ch : Choices) (m : Meta) (hm : XMetaOK m) (l : Location) (hl : XLocOK l) (st : RSt) (rest : List Ctx)
@@ -119,7 +127,7 @@ theorem spec_start_node (ch : Choices) (m : Meta) (hm : XMetaOK m) (l : Location
       .ok { markDone (push st .node) with cur := some { obj := .node { projectMeta (specOpts ch) m with tags := [] } (projectLoc l) } } := by
   rw [(start_object st _ (parentCtx_data _ m) rest hs _).1]
   have hinit := spec_init ch (fun x => Object.node x Location.undefined) (isMk_node _) m hm (bothDefined l) l hl
-  rw [initObject_of _ _ _ _ _ _ hinit]
+  rw [initObject_of _ _ _ _ _ _ hinit (specUser_len ch m hm)]
   have hbd : (if bothDefined (if bothDefined l then l else Location.undefined) then (if bothDefined l then l else Location.undefined)
       else Location.undefined) = projectLoc l := by
     unfold projectLoc
